@@ -306,6 +306,11 @@ C_TEMPLATES = [
     '\tcharset\t{c},255,0\n\tbyt\t"a"\n',
     '\tcharset\t255,{c}\n',
     'x\tequ\tlab[parent{c}]\n',
+    # functions that call themselves; 8-bit characters while a #define is active
+    'f\tfunction\tx,f(x)+{c}\n\tbyt\tf(1)\n',
+    'f\tfunction\tx,g(x)\ng\tfunction\tx,f(x)\n\tbyt\tf({c})\n',
+    '#define foo {c}\n\tnop ; caf\xe9 \xc3\xa9\xff\n\tbyt\tfoo&255,"\xe9\xff"\n',
+    '#define f\xe9 {c}\n\tbyt\tf\xe9&255\n',
     # faults far to the right and very long operands
     '\tbyt\t' + '1+' * 1500 + 'undefsym{c}\n',
     '\tbyt\t' + ' ' * 3000 + 'undefsym{c}\n',
@@ -723,7 +728,7 @@ ASL_ENV_NOCLAIM = {'ASL_VERIF_MAX_LINES': str(min(LINE_BUDGET, 300000)), 'ASL_VE
 
 
 # message/report options that change how a diagnostic is rendered (position markers, GNU format, numbers, listing)
-OPT_VARIANTS = [[], ['-x'], ['-x', '-x'], ['-gnuerrors', '-x'], ['-n', '-x', '-x'], ['-L'], ['-x', '-L', '-u', '-C'], []]
+OPT_VARIANTS = [[], ['-x'], ['-x', '-x'], ['-gnuerrors', '-x'], ['-n', '-x', '-x'], ['-L'], ['-x', '-L', '-u', '-C'], [], ['-U'], ['-U', '-L', '-x']]
 
 
 def opt_variant(tag):
